@@ -10,6 +10,29 @@ Theorem entry_roundtrip : forall e, wf_entry e -> decode (encode e) = DecOk e (n
 Proof. exact entry_roundtrip_proved. Qed.
 Print Assumptions entry_roundtrip.
 
+(* the law holds exactly below the limit: an entry whose encoding reaches the
+   (regenerated) ColferSizeMax is written by marshalTo but refused by unmarshal,
+   and Size() panics above it (size_checked).  wf_entry therefore bounds the size. *)
+Theorem entry_at_limit_rejected : forall e,
+  wf_entry0 e -> colfer_size_max <= size e -> decode (encode e) = DecMax.
+Proof. exact entry_at_limit_rejected_proved. Qed.
+Print Assumptions entry_at_limit_rejected.
+
+(* entries too large to build in the extracted model are checked through functions of
+   the Cmd LENGTH only (harness op BIG); these are the same computations: *)
+Theorem entry_big_size : forall e, size_checked e = size_checked_len e (nlen (e_cmd e)).
+Proof. exact size_checked_len_eq. Qed.
+Print Assumptions entry_big_size.
+Theorem entry_big_encoding : forall e, e_cmd e <> [] ->
+  encode e = encode_head e (nlen (e_cmd e)) ++ e_cmd e ++ [127].
+Proof. exact encode_head_split. Qed.
+Print Assumptions entry_big_encoding.
+Theorem entry_big_decode : forall e, wf_entry0 e ->
+  decode (encode e) =
+  match decode_outcome_len e (nlen (e_cmd e)) with Some n => DecOk e n | None => DecMax end.
+Proof. exact decode_outcome_len_eq. Qed.
+Print Assumptions entry_big_decode.
+
 (* Entry.Size() is the exact length of what marshalTo writes *)
 Theorem entry_size_exact : forall e, nlen (encode e) = size e.
 Proof. exact entry_size_exact_proved. Qed.
